@@ -3,6 +3,7 @@ package main
 // Component model of throttle.ThrottledRecorder for the E2 fix-point.
 
 import (
+	"go/constant"
 	"fmt"
 	"go/types"
 	"sort"
@@ -85,12 +86,57 @@ func buildThrottleComponent(w *World, fault bool) (*throttleModel, error) {
 		return nil, fmt.Errorf("bucket / listener fields not resolved")
 	}
 	c.resolveTracking()
+	var bools []int
 	for i, k := range c.Tracked {
 		if k == tBool {
-			if m.recFld >= 0 {
-				return nil, fmt.Errorf("more than one bool flag in ThrottledRecorder")
+			bools = append(bools, i)
+		}
+	}
+	sort.Ints(bools)
+	if len(bools) == 1 {
+		m.recFld = bools[0]
+	} else {
+		// several flags: the recording flag is the one set to true after (dominated by) a wrapped StartRecording call
+		cands := map[int]bool{}
+		for fn := range w.AllFuncs {
+			if fn.Signature.Recv() == nil || !isPtrTo(fn.Signature.Recv().Type(), T) {
+				continue
 			}
-			m.recFld = i
+			var starts []*ssa.BasicBlock
+			for _, b := range fn.Blocks {
+				for _, in := range b.Instrs {
+					if ci, ok := in.(ssa.CallInstruction); ok && ci.Common().IsInvoke() && ci.Common().Method.Name() == "StartRecording" {
+						starts = append(starts, b)
+					}
+				}
+			}
+			for _, b := range fn.Blocks {
+				for _, in := range b.Instrs {
+					st, ok := in.(*ssa.Store)
+					if !ok {
+						continue
+					}
+					fa, ok := st.Addr.(*ssa.FieldAddr)
+					if !ok || !isPtrTo(fa.X.Type(), T) || c.Tracked[fa.Field] != tBool {
+						continue
+					}
+					cv, ok := st.Val.(*ssa.Const)
+					if !ok || cv.Value == nil || cv.Value.Kind() != constant.Bool || !constant.BoolVal(cv.Value) {
+						continue
+					}
+					for _, sb := range starts {
+						if sb == b || sb.Dominates(b) {
+							cands[fa.Field] = true
+						}
+					}
+				}
+			}
+		}
+		if len(cands) != 1 {
+			return nil, fmt.Errorf("recording flag of ThrottledRecorder not resolved among %d bool fields", len(bools))
+		}
+		for fi := range cands {
+			m.recFld = fi
 		}
 	}
 	// entries: the methods of recorder.Recorder
